@@ -21,24 +21,28 @@ def hist_to_case(i, h, labels, big=False, asbuilt=False):
 
 
 def compare_hist(h, reply, check_pacing):
+    """The accounting unit is whatever the implementation charges for the first allocation; from then
+    on bytes_allocated and (after the first collection) collection_threshold must be the model's
+    numbers in that unit, exactly."""
     if "steps" not in reply:
         return "harness did not complete the history: %r" % (reply,)
     steps = reply["steps"]
+    unit = steps[0]["raw_bytes"]
+    if unit <= 0:
+        return "first allocation accounted %r bytes" % unit
     seen_collect = False
     for n, st in enumerate(h["ops"]):
         obs, got = st["obs"], steps[n]
-        if st["op"][0] == "new" and (st["op"][2] == 1 or check_pacing):
-            pass
         if sorted(obs["freed"]) != got["freed"]:
             return "step %d %r: reclaimed set differs: spec %r impl %r" % (n + 1, st["op"], sorted(obs["freed"]), got["freed"])
         if obs["objects"] != got["objects"]:
             return "step %d %r: heap object count differs: spec %r impl %r" % (n + 1, st["op"], obs["objects"], got["objects"])
-        if obs["bytes"] != got["bytes"] or got["bytes_rem"] != 0:
-            return "step %d %r: bytes_allocated differs: spec %r impl %r(+%r)" % (n + 1, st["op"], obs["bytes"], got["bytes"], got["bytes_rem"])
+        if obs["bytes"] * unit != got["raw_bytes"]:
+            return "step %d %r: bytes_allocated differs: spec %r units of %d impl %r" % (n + 1, st["op"], obs["bytes"], unit, got["raw_bytes"])
         if got["collections"] > 0:
             seen_collect = True
-        if (seen_collect or check_pacing) and (obs["thr"] != got["thr"] or got["thr_rem"] != 0):
-            return "step %d %r: collection_threshold differs: spec %r impl %r(+%r)" % (n + 1, st["op"], obs["thr"], got["thr"], got["thr_rem"])
+        if seen_collect and obs["thr"] * unit != got["raw_thr"]:
+            return "step %d %r: collection_threshold differs: spec %r units of %d impl %r" % (n + 1, st["op"], obs["thr"], unit, got["raw_thr"])
     return None
 
 
